@@ -144,15 +144,23 @@ def main(argv):
     if time.time() - t_retry > (300 if tier == "quick" else 1200):
       break                      # the retries share one wall-clock budget
     base = cases[i].timeout_ms or (10000 if tier == "quick" else 60000)
-    saved = cases[i].timeout_ms
+    saved = (cases[i].timeout_ms, cases[i].precise_ties)
     cases[i].timeout_ms = base * 4
+    # a counter-model that exists only AT a rounding tie cannot be concretised while ties are left unspecified:
+    # the retry models tf.round's half-to-even exactly, so such a model becomes a replayable witness (or disappears)
+    if any("could not be concretised" in c["reason"] for c in results[i]["clauses"].values()):
+      cases[i].precise_ties = True
     try:
       r2 = _work(i)
     finally:
-      cases[i].timeout_ms = saved
+      cases[i].timeout_ms, cases[i].precise_ties = saved
     if not r2["error"] and not r2["undecided_reason"]:
-      r2["retried"] = True
-      results[i] = r2
+      better = any(c["status"] == "failed" for c in r2["clauses"].values()) or \
+          sum(1 for c in r2["clauses"].values() if c["status"] == "unknown") < \
+          sum(1 for c in results[i]["clauses"].values() if c["status"] == "unknown")
+      if better:
+        r2["retried"] = True
+        results[i] = r2
 
   crash = [r for r in results if r["error"]]
   obligations = discharged = 0
